@@ -1556,7 +1556,8 @@ func c8decodeCase(c *Ctx, r *rand.Rand, shapes []*c8shape) {
 
 	c8errorEquality(c, r, cs)
 	c8utf8Case(c, r, cs, g)
-	c8dupCase(c, r, cs, g, refDump)
+	pre := g.prepopulation(cs.root)
+	c8dupCase(c, r, cs, g, refDump, pre)
 }
 
 // c8errorEquality: on duplicate-free input that fails for another reason, AllowDuplicateNames changes nothing.
@@ -1655,7 +1656,7 @@ func c8mustAccept(c *Ctx, cs *c8case, what string, target reflect.Value, text []
 	return true
 }
 
-func c8dupCase(c *Ctx, r *rand.Rand, cs *c8case, g *c8gen, cleanDump string) {
+func c8dupCase(c *Ctx, r *rand.Rand, cs *c8case, g *c8gen, cleanDump string, pre *c8pre) {
 	inj := g.inject(cs.root)
 	if inj == nil {
 		c.Hit("no-object-site")
@@ -1707,8 +1708,10 @@ func c8dupCase(c *Ctx, r *rand.Rand, cs *c8case, g *c8gen, cleanDump string) {
 		}
 	}
 
-	// expected value under AllowDuplicateNames, computed with DEFAULT options on duplicate-free texts
 	first := c8renderWithout(cs.root, site, inj.i2, -1, nil)
+	c8prepopulated(c, r, cs, pre, inj, text, first)
+
+	// expected value under AllowDuplicateNames, computed with DEFAULT options on duplicate-free texts
 	var want string
 	var wantErr bool
 	var rawfix func([]byte) []byte
@@ -1789,6 +1792,378 @@ func c8dupCase(c *Ctx, r *rand.Rand, cs *c8case, g *c8gen, cleanDump string) {
 		if got != want || (inj.oracle == "rawpatch" && nrepl != 1) {
 			c.Violate("allow-duplicate-value", c8entryName[e], text, c8detail(cs, "text", text, "site", cls, "how", inj.how, "oracle", inj.oracle,
 				"got", trunc(got, 800), "want", trunc(want, 800), "rawReplacements", nrepl, "first", first))
+		}
+	}
+}
+
+// ---------------------------------------------------------------------------------------------
+// Pre-populated targets.  Every shape is also exercised with a destination that already holds data: maps of
+// every key kind with existing entries (some sharing names with the input, some not), structs with non-zero
+// fields, non-nil pointers, `any` holding map[string]any / []any, fallback maps and raw fallbacks that already
+// hold members.  The destination is produced (1) by unmarshaling a duplicate-free variant of the clean text and
+// (2) by direct construction with reflect from the same tree, without the library.
+
+type c8pre struct {
+	root    *c8jv
+	text    []byte
+	kept    map[*c8mem]bool // members of the clean tree that also exist in the pre-populating tree
+	keptObj map[*c8jv]bool  // objects of the clean tree whose counterpart in the pre-populating tree is an object
+}
+
+func (g *c8gen) prepopulation(root *c8jv) *c8pre {
+	p := &c8pre{kept: map[*c8mem]bool{}, keptObj: map[*c8jv]bool{}}
+	p.root = g.prevariant(root, 0, p, true)
+	p.root.link(nil, nil)
+	p.text = p.root.render(nil)
+	if ok, dup, bad := c8scan(p.text); !ok || dup || bad {
+		fail("C08 generator: pre-populating text is not clean (ok=%v dup=%v bad=%v): %s", ok, dup, bad, p.text)
+	}
+	return p
+}
+
+// another value for the same position and, inside `any`, of the same JSON kind (so that the clean text still
+// merges into it without a type error)
+func (g *c8gen) regen(v *c8jv, depth int) *c8jv {
+	if v.zone == 't' && v.sh != nil {
+		return g.typed(v.sh, depth)
+	}
+	kind := v.k
+	if kind == 'n' {
+		kind = 0
+	}
+	nv := g.free(v.zone, depth, kind)
+	nv.sh = v.sh
+	return nv
+}
+
+func c8numEq(a, b string) bool {
+	x, e1 := strconv.ParseFloat(a, 64)
+	y, e2 := strconv.ParseFloat(b, 64)
+	return e1 == nil && e2 == nil && x == y
+}
+
+// prevariant derives the pre-populating tree from the clean tree: members are kept (with varied values), dropped,
+// and fresh ones are added.
+func (g *c8gen) prevariant(v *c8jv, depth int, p *c8pre, isRoot bool) *c8jv {
+	r := g.r
+	if !isRoot && r.IntN(25) == 0 {
+		return c8null(v.zone, v.sh)
+	}
+	if v.k != '{' || depth >= 6 {
+		return g.regen(v, depth)
+	}
+	p.keptObj[v] = true
+	nv := &c8jv{k: '{', zone: v.zone, sh: v.sh}
+	for _, m := range v.mem {
+		if r.IntN(10) < 8 {
+			nm := *m
+			nm.val = g.prevariant(m.val, depth+1, p, false)
+			nv.mem = append(nv.mem, &nm)
+			p.kept[m] = true
+		}
+	}
+	for k, n := 0, r.IntN(3); k < n; k++ {
+		var nm *c8mem
+		mk := func(name string, val *c8jv) *c8mem {
+			q, bounds := c8quote(r, name, r.IntN(4) == 0)
+			return &c8mem{q: q, bounds: bounds, name: name, val: val}
+		}
+		switch {
+		case v.zone != 't':
+			name := c8randString(r, 3) + "~" + strconv.Itoa(k)
+			if v.zone != 'a' {
+				name = "#" + name
+			}
+			nm = mk(name, g.free(v.zone, depth+1, 0))
+		case v.sh.kind == c8MapStr:
+			nm = mk(c8randString(r, 3)+"~"+strconv.Itoa(k), g.typed(v.sh.elem, depth+1))
+		case v.sh.kind == c8MapInt || v.sh.kind == c8MapU8 || v.sh.kind == c8MapF64:
+			var name string
+			switch v.sh.kind {
+			case c8MapInt:
+				name = strconv.Itoa(r.IntN(60) - 20)
+			case c8MapU8:
+				name = strconv.Itoa(r.IntN(256))
+			default:
+				name = strconv.FormatFloat(c8floatKeys[r.IntN(len(c8floatKeys))]+float64(r.IntN(3)), 'g', -1, 64)
+			}
+			clash := false
+			for _, m := range v.mem {
+				clash = clash || c8numEq(m.name, name)
+			}
+			for _, m := range nv.mem {
+				clash = clash || c8numEq(m.name, name)
+			}
+			if clash {
+				continue
+			}
+			nm = mk(name, g.typed(v.sh.elem, depth+1))
+		case v.sh.kind == c8Struct:
+			if r.IntN(2) == 0 && len(v.sh.fields) > 0 {
+				f := v.sh.fields[r.IntN(len(v.sh.fields))]
+				used := false
+				for _, m := range v.mem {
+					used = used || m.fld == f
+				}
+				for _, m := range nv.mem {
+					used = used || m.fld == f
+				}
+				if used {
+					continue
+				}
+				nm = mk(f.name, g.typed(f.sh, depth+1))
+				nm.fld = f
+			} else {
+				nm = mk("#"+c8randString(r, 3)+"~"+strconv.Itoa(k), g.unknownVal(v.sh, depth, false))
+				nm.unknown = true
+			}
+		}
+		if nm != nil {
+			nv.mem = append(nv.mem, nm)
+		}
+	}
+	r.Shuffle(len(nv.mem), func(i, j int) { nv.mem[i], nv.mem[j] = nv.mem[j], nv.mem[i] })
+	return nv
+}
+
+func c8unquoteLit(lit []byte) string {
+	sc := &c8scanner{b: lit}
+	str, _ := sc.str()
+	return str
+}
+
+// c8toAny builds the Go value an `any` target holds for the tree, without the library.
+func c8toAny(v *c8jv) any {
+	switch v.k {
+	case 'b':
+		return string(v.lit) == "true"
+	case '0':
+		f, err := strconv.ParseFloat(string(v.lit), 64)
+		if err != nil {
+			fail("C08 generator: number literal %q", v.lit)
+		}
+		return f
+	case '"':
+		return c8unquoteLit(v.lit)
+	case '[':
+		a := make([]any, len(v.elems))
+		for i, e := range v.elems {
+			a[i] = c8toAny(e)
+		}
+		return a
+	case '{':
+		m := make(map[string]any, len(v.mem))
+		for _, e := range v.mem {
+			m[e.name] = c8toAny(e.val)
+		}
+		return m
+	}
+	return nil
+}
+
+// c8construct builds, with reflect only, the value of the shape's type that the tree denotes.
+func c8construct(sh *c8shape, v *c8jv) reflect.Value {
+	out := reflect.New(sh.typ).Elem()
+	if v.k == 'n' {
+		if sh.kind == c8Raw {
+			out.SetBytes([]byte("null"))
+		}
+		return out
+	}
+	switch sh.kind {
+	case c8Any:
+		out.Set(reflect.ValueOf(c8toAny(v)))
+	case c8Raw:
+		out.SetBytes(v.render(nil))
+	case c8Int:
+		n, err := strconv.ParseInt(string(v.lit), 10, 64)
+		if err != nil {
+			fail("C08 generator: int literal %q", v.lit)
+		}
+		out.SetInt(n)
+	case c8F64:
+		f, err := strconv.ParseFloat(string(v.lit), 64)
+		if err != nil {
+			fail("C08 generator: float literal %q", v.lit)
+		}
+		out.SetFloat(f)
+	case c8Bool:
+		out.SetBool(string(v.lit) == "true")
+	case c8Str:
+		out.SetString(c8unquoteLit(v.lit))
+	case c8Slice:
+		sl := reflect.MakeSlice(sh.typ, len(v.elems), len(v.elems))
+		for i, e := range v.elems {
+			sl.Index(i).Set(c8construct(sh.elem, e))
+		}
+		out.Set(sl)
+	case c8Ptr:
+		p := reflect.New(sh.elem.typ)
+		p.Elem().Set(c8construct(sh.elem, v))
+		out.Set(p)
+	case c8MapStr, c8MapInt, c8MapU8, c8MapF64:
+		m := reflect.MakeMap(sh.typ)
+		for _, e := range v.mem {
+			k := reflect.New(sh.typ.Key()).Elem()
+			switch sh.kind {
+			case c8MapStr:
+				k.SetString(e.name)
+			case c8MapInt:
+				n, _ := strconv.ParseInt(e.name, 10, 64)
+				k.SetInt(n)
+			case c8MapU8:
+				n, _ := strconv.ParseUint(e.name, 10, 8)
+				k.SetUint(n)
+			case c8MapF64:
+				f, _ := strconv.ParseFloat(e.name, 64)
+				k.SetFloat(f)
+			}
+			m.SetMapIndex(k, c8construct(sh.elem, e.val))
+		}
+		out.Set(m)
+	case c8Struct:
+		x := len(sh.fields) // index of the fallback field X
+		for _, e := range v.mem {
+			switch {
+			case e.fld != nil:
+				out.Field(e.fld.id).Set(c8construct(e.fld.sh, e.val))
+			case sh.fb == 1:
+				if out.Field(x).IsNil() {
+					out.Field(x).Set(reflect.MakeMap(out.Field(x).Type()))
+				}
+				out.Field(x).SetMapIndex(reflect.ValueOf(e.name), reflect.ValueOf(&[]any{c8toAny(e.val)}[0]).Elem())
+			case sh.fb == 2:
+				if out.Field(x).IsNil() {
+					out.Field(x).Set(reflect.MakeMap(out.Field(x).Type()))
+				}
+				out.Field(x).SetMapIndex(reflect.ValueOf(e.name), c8construct(sh.fbElem, e.val))
+			case sh.fb == 3:
+				out.Field(x).SetBytes(c8fallbackText(v, -1))
+			}
+		}
+	default:
+		fail("C08: construct on shape kind %d", sh.kind)
+	}
+	return out
+}
+
+func c8prepopulated(c *Ctx, r *rand.Rand, cs *c8case, pre *c8pre, inj *c8inj, text, first []byte) {
+	site := inj.site
+	m1, m2 := site.mem[inj.i1], site.mem[inj.i2]
+	// the two flavours of pre-population agree (else the reference below means nothing)
+	lib := reflect.New(cs.sh.typ)
+	if !c8mustAccept(c, cs, "pre-populating text", lib, pre.text) {
+		return
+	}
+	libDump := c8dump(lib.Elem(), nil)
+	var built reflect.Value
+	if p := guard(func() { built = c8construct(cs.sh, pre.root) }); p != nil {
+		fail("C08 generator: construct panicked on %s: %v", pre.text, p)
+	}
+	if d := c8dump(built, nil); d != libDump {
+		c.Violate("prepopulate-construct-differs", "Unmarshal vs reflect construction", pre.text,
+			c8detail(cs, "text", pre.text, "unmarshal", trunc(libDump, 800), "constructed", trunc(d, 800)))
+		return
+	}
+	direct := r.IntN(2) == 0
+	mk := func() reflect.Value {
+		t := reflect.New(cs.sh.typ)
+		if direct {
+			t.Elem().Set(c8construct(cs.sh, pre.root))
+		} else if res := c8unmarshalInto(0, t, pre.text, cs.opts()); res.err != nil || res.pan != nil {
+			c.Violate("reject-clean", "Unmarshal(pre-populating text, repeated)", pre.text, c8detail(cs, "text", pre.text, "err", res.err))
+		}
+		return t
+	}
+	where := "site-absent-in-destination"
+	if pre.keptObj[site] {
+		where = "fresh-key"
+		if pre.kept[m1] || pre.kept[m2] {
+			where = "pre-existing-key"
+		}
+	}
+	cls := c8siteClass(site, m1)
+	c.Hit("prepop:" + where)
+	c.Hit("prepop-site:" + cls + "/" + where)
+	if direct {
+		c.Hit("prepop-flavour:reflect-construction")
+	} else {
+		c.Hit("prepop-flavour:unmarshal")
+	}
+	c.Case("P"+string(pre.text)+"|"+string(text), true)
+	entries := []int{0, 1 + r.IntN(c8numEntries-1)}
+
+	// clean text into the pre-populated destination: accepted, same result whatever the entry point / flavour
+	refT := mk()
+	ref := c8unmarshalInto(0, refT, cs.clean, cs.opts())
+	if ref.pan != nil {
+		c.Panic("Unmarshal(pre-populated)", cs.clean, ref.pan, c8detail(cs, "pre", pre.text, "text", cs.clean))
+		return
+	}
+	if ref.err != nil {
+		c.Violate("reject-clean", "Unmarshal(pre-populated)", cs.clean, c8detail(cs, "pre", pre.text, "text", cs.clean, "err", ref.err, "direct", direct))
+		return
+	}
+	refDump := c8dump(refT.Elem(), nil)
+	{
+		t := lib // populated by the library, above
+		res := c8unmarshalInto(entries[1], t, cs.clean, cs.opts())
+		if res.pan != nil {
+			c.Panic(c8entryName[entries[1]]+"(pre-populated)", cs.clean, res.pan, c8detail(cs, "pre", pre.text))
+		} else if d := c8dump(t.Elem(), nil); res.err != nil || d != refDump {
+			c.Violate("prepopulated-clean-result", c8entryName[entries[1]], cs.clean, c8detail(cs, "pre", pre.text, "text", cs.clean, "err", res.err,
+				"got", trunc(d, 800), "want", trunc(refDump, 800)))
+		}
+	}
+
+	// injected text, default options: rejected although the destination already holds data
+	for _, e := range entries {
+		t := mk()
+		res := c8unmarshalInto(e, t, text, cs.opts())
+		if res.pan != nil {
+			c.Panic(c8entryName[e]+"(pre-populated)", text, res.pan, c8detail(cs, "pre", pre.text, "text", text))
+			continue
+		}
+		if res.err == nil {
+			c.Violate("accept-duplicate", c8entryName[e]+"(pre-populated destination)", text, c8detail(cs, "pre", pre.text, "text", text, "site", cls, "how", inj.how,
+				"collidesWith", where, "names", []string{m1.name, m2.name}, "direct", direct, "value", trunc(c8dump(t.Elem(), nil), 600)))
+		} else if errors.Is(res.err, jsontext.ErrDuplicateName) {
+			c.Hit("prepop-reject:duplicate-name")
+		} else {
+			c.Hit("prepop-reject:other-error-first") // e.g. an earlier member that the existing Go value cannot hold
+		}
+	}
+
+	// AllowDuplicateNames into the pre-populated destination = sequential merge with default options
+	if inj.oracle != "seq" && inj.oracle != "clean" {
+		return
+	}
+	wantT := mk()
+	res := c8unmarshalInto(0, wantT, first, cs.opts())
+	wantErr := res.err != nil
+	if !wantErr && inj.oracle == "seq" {
+		res = c8unmarshalInto(0, wantT, c8pathOnly(site, inj.i2), cs.opts())
+		wantErr = res.err != nil
+	}
+	if res.pan != nil {
+		c.Panic("Unmarshal(merge, pre-populated)", text, res.pan, c8detail(cs, "pre", pre.text))
+		return
+	}
+	gotT := mk()
+	got := c8unmarshalInto(entries[1], gotT, text, cs.opts(c8AD))
+	if got.pan != nil {
+		c.Panic(c8entryName[entries[1]]+"+AllowDuplicateNames(pre-populated)", text, got.pan, c8detail(cs, "pre", pre.text))
+		return
+	}
+	if (got.err != nil) != wantErr {
+		c.Violate("allow-duplicate-outcome", c8entryName[entries[1]]+"(pre-populated destination)", text, c8detail(cs, "pre", pre.text, "text", text,
+			"err", got.err, "expectedError", wantErr))
+		return
+	}
+	if !wantErr {
+		if g, w := c8dump(gotT.Elem(), nil), c8dump(wantT.Elem(), nil); g != w {
+			c.Violate("allow-duplicate-value", c8entryName[entries[1]]+"(pre-populated destination)", text, c8detail(cs, "pre", pre.text, "text", text,
+				"site", cls, "how", inj.how, "got", trunc(g, 800), "want", trunc(w, 800)))
 		}
 	}
 }
@@ -2392,6 +2767,326 @@ func c8encodeCase(c *Ctx, r *rand.Rand) {
 }
 
 // ---------------------------------------------------------------------------------------------
+// (b') ENCODE: struct graphs with an embedded fallback.  Embedded structs (value and pointer) are declared before
+// and after direct fields, so the depth-first order in which fields are emitted differs from their breadth-first
+// ids; fields carry omitzero / omitempty and are set to zero and non-zero values; the fallback (map[string]any or
+// jsontext.Value) names emitted fields (exactly / folded), omitted fields, and fresh names.
+// Expectation (doc.go "embed", arshal_default.go:1249-1275): error iff two emitted members fall into the same slot,
+// where a declared field that is emitted occupies its slot and a fallback name occupies the slot of the field it
+// resolves to (exact name, or folded name of a case-insensitive field), otherwise its own.  A fallback member named
+// like an OMITTED field is legal.
+
+type c8sgField struct {
+	name string
+	ci   bool
+	omit uint8 // 0 none, 1 omitzero, 2 omitempty
+	kind uint8 // 0 int, 1 string, 2 any
+	path []int
+	gate [][]int // pointer-embedded structs on the way (all must be non-nil for the field to exist)
+}
+
+type c8sgraph struct {
+	typ     reflect.Type
+	fields  []*c8sgField
+	ptrs    [][]int // index paths of pointer-embedded structs, parents first
+	fbPath  []int
+	fbGate  [][]int
+	fbRaw   bool
+	dfsDiff bool // some embedded struct is declared before a direct field
+}
+
+type c8sgBuilder struct {
+	r     *rand.Rand
+	folds map[string]bool
+	g     *c8sgraph
+	nName int
+}
+
+func (b *c8sgBuilder) build(depth int, path []int, gate [][]int, wantFB bool) reflect.Type {
+	r := b.r
+	var sfs []reflect.StructField
+	n := 2 + r.IntN(4)
+	fbAt := -1
+	if wantFB {
+		fbAt = r.IntN(n + 1)
+	}
+	sawEmbed := false
+	for i := 0; i <= n; i++ {
+		idx := len(sfs)
+		p := append(append([]int{}, path...), idx)
+		if i == fbAt {
+			t := reflect.TypeFor[map[string]any]()
+			if b.g.fbRaw {
+				t = c8rawType
+			}
+			sfs = append(sfs, reflect.StructField{Name: fmt.Sprintf("X%d", depth), Type: t, Tag: `json:",embed"`})
+			b.g.fbPath, b.g.fbGate = p, gate
+			continue
+		}
+		if i == n {
+			break
+		}
+		if depth < 2 && r.IntN(10) < 4 {
+			sawEmbed = true
+			ptr := r.IntN(3) == 0
+			g2 := gate
+			if ptr {
+				g2 = append(append([][]int{}, gate...), p)
+				b.g.ptrs = append(b.g.ptrs, p)
+			}
+			// an embedded fallback inside an embedded struct (only below value embedding, once)
+			innerFB := false
+			if wantFB && fbAt < 0 {
+				innerFB = false
+			}
+			et := b.build(depth+1, p, g2, innerFB)
+			if ptr {
+				et = reflect.PointerTo(et)
+			}
+			sfs = append(sfs, reflect.StructField{Name: fmt.Sprintf("E%d_%d", depth, i), Type: et, Tag: `json:",embed"`})
+			continue
+		}
+		if sawEmbed {
+			b.g.dfsDiff = true
+		}
+		var name string
+		for {
+			name = c8fieldName(r, false)
+			f := string(json.VerifFoldName([]byte(name)))
+			if f != "" && !b.folds[f] {
+				b.folds[f] = true
+				break
+			}
+		}
+		f := &c8sgField{name: name, path: p, gate: gate, omit: uint8(r.IntN(3)), kind: uint8(r.IntN(3)), ci: r.IntN(3) == 0}
+		tag := name
+		if f.ci {
+			tag += ",case:ignore"
+		}
+		switch f.omit {
+		case 1:
+			tag += ",omitzero"
+		case 2:
+			tag += ",omitempty"
+		}
+		t := []reflect.Type{reflect.TypeFor[int](), reflect.TypeFor[string](), c8anyType}[f.kind]
+		sfs = append(sfs, reflect.StructField{Name: fmt.Sprintf("F%d_%d", depth, i), Type: t, Tag: reflect.StructTag(`json:"` + tag + `"`)})
+		b.g.fields = append(b.g.fields, f)
+	}
+	return reflect.StructOf(sfs)
+}
+
+func c8sgraphPool(c *Ctx, r *rand.Rand, n int) []*c8sgraph {
+	var gs []*c8sgraph
+	for len(gs) < n {
+		b := &c8sgBuilder{r: r, folds: map[string]bool{}, g: &c8sgraph{fbRaw: r.IntN(2) == 0}}
+		b.g.typ = b.build(0, nil, nil, true)
+		if len(b.g.fields) == 0 || (!b.g.dfsDiff && r.IntN(4) > 0) {
+			continue // prefer graphs whose emission order differs from the id order
+		}
+		gs = append(gs, b.g)
+	}
+	return gs
+}
+
+func c8sgEncodeCase(c *Ctx, r *rand.Rand, graphs []*c8sgraph) {
+	g := graphs[r.IntN(len(graphs))]
+	v := reflect.New(g.typ).Elem()
+	nonNil := map[string]bool{}
+	for _, p := range g.ptrs { // parents first
+		parentOK := true
+		for q := 1; q < len(p); q++ {
+			if f := v.FieldByIndex(p[:q]); f.Kind() == reflect.Pointer && f.IsNil() {
+				parentOK = false
+			}
+		}
+		if parentOK && r.IntN(5) > 0 {
+			f := v.FieldByIndex(p)
+			f.Set(reflect.New(f.Type().Elem()))
+			nonNil[fmt.Sprint(p)] = true
+		}
+	}
+	exists := func(gate [][]int) bool {
+		for _, p := range gate {
+			if !nonNil[fmt.Sprint(p)] {
+				return false
+			}
+		}
+		return true
+	}
+	slots := map[string]int{}
+	var emitted, omitted []*c8sgField
+	for _, f := range g.fields {
+		if !exists(f.gate) {
+			omitted = append(omitted, f)
+			continue
+		}
+		fv := v.FieldByIndex(f.path)
+		zero := r.IntN(2) == 0
+		emit := true
+		switch f.kind {
+		case 0:
+			if !zero {
+				fv.SetInt(int64(1 + r.IntN(9)))
+			}
+			emit = !(f.omit == 1 && zero) // `0` is not an empty JSON value
+		case 1:
+			if !zero {
+				fv.SetString("s" + strconv.Itoa(r.IntN(9)))
+			}
+			emit = !(f.omit != 0 && zero)
+		case 2:
+			switch {
+			case zero:
+				emit = f.omit == 0 // nil interface: zero, and `null` is empty
+			case r.IntN(3) == 0:
+				fv.Set(reflect.ValueOf("")) // non-zero Go value whose JSON is empty
+				emit = f.omit != 2
+			default:
+				fv.Set(reflect.ValueOf(float64(r.IntN(9))))
+			}
+		}
+		if emit {
+			emitted = append(emitted, f)
+			slots["field:"+f.name]++
+		} else {
+			omitted = append(omitted, f)
+		}
+	}
+	slotOf := func(name string) string {
+		fold := string(json.VerifFoldName([]byte(name)))
+		for _, f := range g.fields {
+			if f.name == name {
+				return "field:" + f.name
+			}
+		}
+		for _, f := range g.fields {
+			if f.ci && string(json.VerifFoldName([]byte(f.name))) == fold {
+				return "field:" + f.name
+			}
+		}
+		return "name:" + name
+	}
+	var names []string
+	classes := map[string]bool{}
+	if exists(g.fbGate) {
+		for k, n := 0, r.IntN(4); k < n; k++ {
+			var name, cls string
+			switch p := r.IntN(10); {
+			case p < 3 && len(emitted) > 0:
+				f := emitted[r.IntN(len(emitted))]
+				name, cls = f.name, "emitted-field-exact"
+				if r.IntN(3) == 0 {
+					name, cls = c8variant(r, f.name), "emitted-field-folded"
+				}
+			case p < 6 && len(omitted) > 0:
+				f := omitted[r.IntN(len(omitted))]
+				name, cls = f.name, "omitted-field-exact"
+				if r.IntN(3) == 0 {
+					name, cls = c8variant(r, f.name), "omitted-field-folded"
+				}
+			default:
+				name, cls = "#"+c8randString(r, 2)+strconv.Itoa(k), "fresh"
+			}
+			if !g.fbRaw {
+				dup := false
+				for _, x := range names {
+					dup = dup || x == name
+				}
+				if dup {
+					continue // a Go map has each key once
+				}
+			}
+			names = append(names, name)
+			classes[cls] = true
+			slots[slotOf(name)]++
+		}
+		fb := v.FieldByIndex(g.fbPath)
+		if len(names) > 0 || r.IntN(2) == 0 {
+			if g.fbRaw {
+				b := []byte{'{'}
+				for i, n := range names {
+					if i > 0 {
+						b = append(b, ',')
+					}
+					q, _ := c8quote(r, n, r.IntN(3) == 0)
+					b = append(append(append(b, q...), ':'), strconv.Itoa(100+i)...)
+				}
+				fb.SetBytes(append(b, '}'))
+			} else {
+				m := map[string]any{}
+				for i, n := range names {
+					m[n] = float64(100 + i)
+				}
+				fb.Set(reflect.ValueOf(m))
+			}
+		}
+	}
+	mustErr := false
+	for _, n := range slots {
+		mustErr = mustErr || n > 1
+	}
+	in := v.Interface()
+	if r.IntN(2) == 0 {
+		in = v.Addr().Interface()
+	}
+	desc := fmt.Sprintf("%s %+v", trunc(g.typ.String(), 1200), v.Interface())
+	key := []byte(desc)
+	det := func(kv ...any) map[string]any {
+		d := map[string]any{"type": trunc(g.typ.String(), 1500), "value": trunc(fmt.Sprintf("%+v", v.Interface()), 800), "fallbackNames": names,
+			"expectError": mustErr, "emissionOrderDiffersFromIds": g.dfsDiff}
+		for i := 0; i+1 < len(kv); i += 2 {
+			d[kv[i].(string)] = fmt.Sprint(kv[i+1])
+		}
+		return d
+	}
+	for cls := range classes {
+		c.Hit("sg-fallback-name:" + cls)
+	}
+	c.Hit(fmt.Sprintf("sg:expectError=%v,dfs!=bfs=%v,omitted>0=%v,raw=%v", mustErr, g.dfsDiff, len(omitted) > 0, g.fbRaw))
+	c.Case("SG"+desc+fmt.Sprint(names), len(names) > 0)
+	var out0 []byte
+	for e := range c8marshalEntry {
+		out, err, pan := c8marshal(e, in)
+		op := c8marshalEntry[e] + "/default(struct graph)"
+		if pan != nil {
+			c.Panic(op, key, pan, det())
+			continue
+		}
+		if err == nil {
+			if ok, dup, bad := c8scan(out); !ok || dup || bad {
+				c.Violate("marshal-emits-ambiguous", op, key, det("out", string(out), "scanOK", ok, "scanDup", dup))
+				continue
+			}
+		}
+		if (err != nil) != mustErr {
+			kind := "marshal-rejects-unambiguous"
+			if mustErr {
+				kind = "marshal-accepts-ambiguous"
+			}
+			c.Violate(kind, op, key, det("out", string(out), "err", err))
+			continue
+		}
+		if err == nil {
+			if e == 0 {
+				out0 = out
+			} else if out0 != nil && !bytes.Equal(out, out0) {
+				c.Violate("marshal-entry-points-differ", op, key, det("out", string(out), "Marshal", string(out0)))
+			}
+		}
+	}
+	// AllowDuplicateNames: always succeeds, and equals the default output when nothing collides
+	out, err, pan := c8marshal(0, in, c8AD)
+	if pan != nil {
+		c.Panic("Marshal/AllowDuplicateNames(struct graph)", key, pan, det())
+	} else if err != nil {
+		c.Violate("marshal-rejects-unambiguous", "Marshal/AllowDuplicateNames(struct graph)", key, det("err", err))
+	} else if out0 != nil && !bytes.Equal(out, out0) {
+		c.Violate("option-changes-clean-output", "Marshal/AllowDuplicateNames(struct graph)", key, det("out", string(out), "default", string(out0)))
+	}
+}
+
+// ---------------------------------------------------------------------------------------------
 // (c) poisoned coders.
 
 func c8invalidNamespace(err error) bool {
@@ -2794,6 +3489,8 @@ func runC08(c *Ctx) {
 	}
 	phase("decode (duplicate + UTF-8 injection)", nDec, func(r *rand.Rand) { c8decodeCase(c, r, shapes) })
 	phase("encode (colliding Go values)", nEnc, func(r *rand.Rand) { c8encodeCase(c, r) })
+	graphs := c8sgraphPool(c, c.Rng, c.N(80, 800))
+	phase("encode (struct graphs with embedded fallback)", nEnc, func(r *rand.Rand) { c8sgEncodeCase(c, r, graphs) })
 	phase("poisoned coders", nPoison, func(r *rand.Rand) { c8poisonDecode(c, r, shapes); c8poisonEncode(c, r) })
 	c8stopProf()
 }
